@@ -185,9 +185,16 @@ def same(a, b, tol=1e-5):
 def audit_case(ctx, rng, case, form, setts, variant=None):
     """one instance under the given settings against the reference settings (no heuristic, no presolve)"""
     box = case['box']
+    # (ill-scaled data: the solver's own accuracy is what limits the comparison; a lost balance equation changes values by order one)
+    tol = 1e-3 if case.get('ill') else 1e-5
     base_s = dict(sm.DEFAULTS)
     base_s['heuristic_reduction'] = False          # the reference: no heuristic, no presolve
-    ref = value_under(case, form, base_s, 'full' if box is None else 'auto')
+    # the reference is computed in a forked child: whatever building it leaves behind in the process (and whatever the builds below
+    # leave behind) cannot flow from one into the other; the settings that follow run in this process, heuristic ones first
+    kind_, ref = common.forked(value_under, case, form, base_s, 'full' if box is None else 'auto', timeout=300)
+    if kind_ != 'ok':
+        ctx.incon('audit: reference %s' % kind_)
+        return
     ctx.case({'stream': 'audit', 'case': case, 'form': form})
     ctx.count('stream:audit:' + ('ordinary' if box is None else 'conditional'))
     if ref[0] != 'solved':
@@ -209,7 +216,7 @@ def audit_case(ctx, rng, case, form, setts, variant=None):
         if box is None:
             # the same settings with FULL covers (built by hand from the public constraint classes)
             stf, vf = value_under(case, form, s, 'full')
-            if stf == 'solved' and not same(vf, ref[1]):
+            if stf == 'solved' and not same(vf, ref[1], tol):
                 ctx.violation('options: ordinary SAGE %s value %.8g with full covers under %s differs from %.8g under the reference settings'
                               % (form, vf, {k: s[k] for k in s if s[k] != sm.DEFAULTS[k]}, ref[1]),
                               {'stream': 'audit', 'case': case, 'form': form, 'settings': s, 'covers': 'full'})
@@ -219,7 +226,7 @@ def audit_case(ctx, rng, case, form, setts, variant=None):
             cm, via = variant or [('fullT', 'global'), ('full', 'override'), ('fullT', 'override'), ('hand', 'override'), ('hand', 'global')][rng.randrange(5)]
             stx, vx = value_under(case, form, s, cm, via)
             ctx.count('audit:variant:%s/%s' % (cm, via))
-            if stx.startswith('raised') or (stx == 'solved' and not same(vx, ref[1])):
+            if stx.startswith('raised') or (stx == 'solved' and not same(vx, ref[1], tol)):
                 ctx.violation('options: ordinary SAGE %s problem with covers=%s and the options %s given as %s: %s, the reference settings give %.8g'
                               % (form, {'fullT': 'full (all-True arrays)', 'full': 'full', 'hand': 'automatic'}[cm],
                                  {k: s[k] for k in s if s[k] != sm.DEFAULTS[k]},
@@ -227,7 +234,7 @@ def audit_case(ctx, rng, case, form, setts, variant=None):
                                  stx[7:] if stx.startswith('raised') else 'value %.8g' % vx, ref[1]),
                               {'stream': 'audit', 'case': case, 'form': form, 'settings': s, 'covers': cm, 'via': via})
                 continue
-            if not same(v, ref[1]):
+            if not same(v, ref[1], tol):
                 tag = []
                 if s['sum_age_force_equality'] and form == 'primal' and v == -math.inf:
                     tag = ['F7-force-equality-uncovered']
@@ -239,7 +246,7 @@ def audit_case(ctx, rng, case, form, setts, variant=None):
             if rng.random() < 0.35 or variant:
                 sto, vo = value_under(case, form, s, 'hand', 'override')
                 ctx.count('audit:variant:hand/override:conditional')
-                if sto.startswith('raised') or (sto == 'solved' and not same(vo, v)):
+                if sto.startswith('raised') or (sto == 'solved' and not same(vo, v, tol)):
                     ctx.violation('options: conditional SAGE %s problem with the options %s given as per-constraint settings (global '
                                   'defaults: the opposite): %s; the same options as global defaults give %.8g'
                                   % (form, {k: s[k] for k in s if s[k] != sm.DEFAULTS[k]},
@@ -247,7 +254,7 @@ def audit_case(ctx, rng, case, form, setts, variant=None):
                                   {'stream': 'audit', 'case': case, 'form': form, 'settings': s, 'covers': 'hand', 'via': 'override'})
                     continue
             exact = not s['heuristic_reduction'] and not s['presolve_trivial_age_cones']
-            if exact and not same(v, ref[1]):
+            if exact and not same(v, ref[1], tol):
                 tag = ['F7-force-equality-uncovered'] if (s['sum_age_force_equality'] and form == 'primal' and v == -math.inf) else []
                 ctx.violation('options: conditional SAGE %s value %.8g under the exact options %s differs from the reference %.8g'
                               % (form, v, {k: s[k] for k in s if s[k] != sm.DEFAULTS[k]}, ref[1]),
@@ -279,6 +286,11 @@ def audit(ctx, rng, count, nsett):
             f = rm.sig_leaf([[F(0), F(0)], [F(2), F(0)], [F(0), F(2)], [F(1), F(1)], [F(1), F(1, 2)], [F(1, 2), F(1)]],
                             [F(rng.choice([1, 2])), F(rng.choice([1, 2])), F(rng.choice([1, 2])), F(rng.choice([1, 2])),
                              F(-1, rng.choice([1, 2])), F(-1, rng.choice([1, 2]))])
+        elif t % 8 == 1:
+            # a change of units that leaves the exponent columns six orders of magnitude apart (x in 1/2000, y in 1000; exact in the
+            # 7 decimals the constructor keeps): rank decisions on the exponent differences must not depend on it
+            f = rm.gen_sig(rng, n=2, m=rng.randint(3, 5))
+            f['alpha'] = [[common.frac_str(F(r[0]) * 2000), common.frac_str(F(r[1]) / 1000)] for r in f['alpha']]
         elif t % 8 == 5:
             # exponents of mixed sign whose row sums are nonnegative with minimum zero: the negative term (1,1) lies between (4,0) and
             # (-2,2), which is orthogonal to it (the sign-pattern simplification is only valid for nonnegative exponents)
@@ -287,14 +299,16 @@ def audit(ctx, rng, count, nsett):
                             [F(rng.choice([1, 2, 3])), F(rng.choice([1, 2])), F(rng.choice([1, 2])), F(-1, rng.choice([1, 2]))])
         else:
             f = rm.gen_sig(rng, m=rng.randint(3, 5))
-        two_neg = t % 8 in (3, 7)
+        two_neg = t % 8 in (3, 7, 1)           # (also the ill-scaled family gets the cover- and kernel-reading options every time)
         n = f['n']
         box = None
-        if rng.random() < 0.45 and t % 8 not in (3, 5):
+        if rng.random() < 0.45 and t % 8 not in (1, 3, 5):
             box = rm.gen_box(rng, n) if rng.random() < 0.6 else {'lin': [[[common.frac_str(F(rng.randint(-1, 1))) for _ in range(n)], '0']]}
             if 'lin' in box and all(F(a) == 0 for a in box['lin'][0][0]):
                 box['lin'][0][0][0] = '1'
         case = {'f': f, 'box': box}
+        if t % 8 == 1:
+            case['ill'] = True
         form = rng.choice(['primal', 'dual'] + (['primal', 'primal'] if two_neg else []))
         setts = alls if nsett >= 32 else [sm.DEFAULTS] + rng.sample(alls, nsett - 1)
         if two_neg and nsett < 32:
@@ -369,9 +383,21 @@ def run(ctx):
     # pinned corpus
     for e in common.load_corpus('C19'):
         if 'case' in e:
+            # reference first, in a forked child (nothing it builds stays in this process); then the stored settings; then the exact
+            # options once more IN this process: what the heuristic build left behind must not change them
+            exact_s = dict(sm.DEFAULTS, heuristic_reduction=False)
+            kind_, ref = common.forked(value_under, e['case'], e['form'], exact_s, 'auto', timeout=300)
+            if kind_ != 'ok':
+                ctx.incon('corpus: reference %s' % kind_)
+                continue
             st_, v = value_under(e['case'], e['form'], e['settings'], 'auto')
-            ref = value_under(e['case'], e['form'], dict(sm.DEFAULTS, heuristic_reduction=False), 'auto')
+            st3, v3 = value_under(e['case'], e['form'], exact_s, 'auto')
             ctx.case({'stream': 'corpus', 'entry': e['note']})
+            if st3 == 'solved' and ref[0] == 'solved' and not same(v3, ref[1]):
+                ctx.violation('options (corpus %s): the exact options give %r when the problem is built after a build under %s, and %r when it '
+                              'is built alone in a fresh process' % (e['note'][:40], v3, {k: e['settings'][k] for k in e['settings'] if e['settings'][k] != sm.DEFAULTS[k]} or 'the defaults', ref[1]),
+                              {'stream': 'corpus-order', 'entry': e})
+                continue
             if st_.startswith('raised') or (st_ == 'solved' and ref[0] == 'solved' and not same(v, ref[1])):
                 tags = []
                 if e.get('tag') == 'F10-heuristic-reduction-infeasible' and e['settings']['heuristic_reduction'] and v == -math.inf:
@@ -396,6 +422,15 @@ def recheck(r):
     """execute the stored input of a violation again; the violation it (still) shows (recorded findings excepted)"""
     import random
     ctx = common.RecCtx()
+    if r.get('stream') == 'corpus-order':
+        e = r['entry']
+        exact_s = dict(sm.DEFAULTS, heuristic_reduction=False)
+        kind_, ref = common.forked(value_under, e['case'], e['form'], exact_s, 'auto', timeout=300)
+        value_under(e['case'], e['form'], e['settings'], 'auto')
+        st3, v3 = value_under(e['case'], e['form'], exact_s, 'auto')
+        if kind_ == 'ok' and st3 == 'solved' and ref[0] == 'solved' and not same(v3, ref[1]):
+            return 'options: the exact options give %r after a build under other settings, and %r alone in a fresh process' % (v3, ref[1])
+        return None
     if r.get('stream') == 'audit' and 'case' in r:
         variant = (r['covers'], r.get('via', 'global')) if r.get('covers') in ('full', 'fullT', 'hand') and 'via' in r else None
         audit_case(ctx, random.Random(0), r['case'], r['form'], [r['settings']], variant=variant)
